@@ -1379,6 +1379,28 @@ def check_C16(ck):
             except Exception:
                 ck.expect(False, "image-on-target", cases[2 * i][1], a, "a point", "image parse")
         ck.expect(res[-1][0] == "inf", "identity->identity", cases[-1][1], res[-1][0], "inf", "identity maps to identity")
+        # rational kernel points (poles of the rational map) must go to the identity, in every representation
+        if tag == "g1":
+            kx = 0x140d41735b10ce710727cd9356905701a2b866b803baa468948b7f423ddcc560c9a8f1cd5f8ed4297c37464fb8bfe4a7
+            kpt = CP.lift_x(kx)
+        else:
+            kpt = CP.lift_x(((-6) % Q, 6))
+        if kpt is not None:
+            kp = [kpt, CP.neg(kpt)] + [CP.mul(kpt, j) for j in (2, 3)]
+            kc = []
+            for Kp in kp:
+                if Kp is None:
+                    continue
+                for (cl, lam) in rep_lams(g, rng)[:4]:
+                    kc.append(("kernel/" + cl, "%s iso %s" % (tag, g.J(Kp, lam))))
+                # kernel point + ordinary point: image equals image of the ordinary point (homomorphism, tested)
+            for c, (impl, _) in zip(kc, ck.run(kc)):
+                ck.expect(impl == "inf", "kernel->identity", c[1], impl, "inf", "every kernel point maps to the identity")
+            P0 = pts[0]
+            (a, _), (b, _) = ck.run([("kernel/shift", "%s iso %s" % (tag, g.J(CP.add(P0, kpt), g.lam(rng)))), ("kernel/shift", "%s iso %s" % (tag, g.J(P0)))])
+            ck.expect(a == b, "homomorphism(test)", "iso(P + K) = iso(P)", a, b, "adding a kernel point does not change the image")
+        else:
+            ck.notes.append("no rational kernel point constructed for %s" % tag)
         # homomorphism (tested, not proved): iso(P+Q) = iso(P)+iso(Q) with + on E' by the a != 0 law
         hc, exp = [], []
         idx = list(img.keys())
